@@ -39,9 +39,10 @@ Init ==
     /\ stage = 0
     /\ \E kind \in KINDS, M \in MS, n \in NS, dt \in DTS, rc \in RNCU :
        LET rn == rc \in {"TF", "TT"} cu == rc \in {"TT", "FT"} IN
-       \E A \in PickMat(n, n), B \in (IF WITHB THEN PickMat(n, n) ELSE {ZeroMat(n)}), c \in (IF WITHB THEN Pick(Zp) ELSE {0}) :
-          /\ (kind = "impl" => (B = ZeroMat(n) /\ c = 0))
-          /\ inst = [kind |-> kind, M |-> M, n |-> n, dt |-> dt, rightnode |-> rn, collupdate |-> cu, A |-> A, B |-> B, c |-> c]
+       \E A \in PickMat(n, n), B \in (IF WITHB THEN PickMat(n, n) ELSE {ZeroMat(n)}), c \in (IF WITHB THEN Pick(Zp) ELSE {0}),
+          g \in (IF WITHB /\ RANDOM THEN PickVec(n) ELSE {Zero(n)}) :
+          /\ (kind = "impl" => (B = ZeroMat(n) /\ c = 0 /\ g = Zero(n)))
+          /\ inst = [kind |-> kind, M |-> M, n |-> n, dt |-> dt, rightnode |-> rn, collupdate |-> cu, A |-> A, B |-> B, c |-> c, g |-> g]
 
 Stage1 ==
     /\ stage = 0
@@ -52,15 +53,19 @@ Stage1 ==
           QE \in (IF inst.kind = "impl" THEN {ZeroMat(M)} ELSE StrictLowerMats(M)) :
        \E w \in (IF WANY THEN PickVec(M) ELSE {Q[M]}) :
           IF MODE = "sweep"
-          THEN inst' = inst @@ [Q |-> Q, QI |-> QI, QE |-> QE, w |-> w]
+          THEN \E tn \in (IF RANDOM /\ inst.kind # "impl" THEN PickVec(M) ELSE {Zero(M)}) :
+               inst' = inst @@ [Q |-> Q, QI |-> QI, QE |-> QE, w |-> w, tn |-> tn]
           ELSE \E Mc \in {m \in MS : m <= M}, nc \in {k \in NS : k <= inst.n} :
                \E Qc \in PickMat(Mc, Mc), QIc \in LowerMats(Mc), QEc \in StrictLowerMats(Mc),
                   Rc \in RcMats(Mc, M), Pc \in PickMat(M, Mc), Rs \in PickMat(nc, inst.n), Ps \in PickMat(inst.n, nc),
-                  Ac \in PickMat(nc, nc) :
-                    inst' = inst @@ [Q |-> Q, QI |-> QI, QE |-> QE, w |-> w,
+                  Ac \in PickMat(nc, nc),
+                  tn \in (IF RANDOM /\ inst.kind # "impl" THEN PickVec(M) ELSE {Zero(M)}),
+                  tnc \in (IF RANDOM /\ inst.kind # "impl" THEN PickVec(Mc) ELSE {Zero(Mc)}),
+                  gc \in (IF RANDOM /\ inst.kind # "impl" THEN PickVec(nc) ELSE {Zero(nc)}) :
+                    inst' = inst @@ [Q |-> Q, QI |-> QI, QE |-> QE, w |-> w, tn |-> tn,
                                      G |-> [kind |-> inst.kind, M |-> Mc, n |-> nc, dt |-> inst.dt, rightnode |-> TRUE, collupdate |-> FALSE,
                                             A |-> Ac, B |-> ZeroMat(nc), c |-> 0, Q |-> Qc, QI |-> QIc, QE |-> QEc,
-                                            w |-> [i \in 1 .. Mc |-> 0]],
+                                            w |-> [i \in 1 .. Mc |-> 0], tn |-> tnc, g |-> gc],
                                      T |-> [Rc |-> Rc, Pc |-> Pc, Rs |-> Rs, Ps |-> Ps]]
 
 Stage2 ==
